@@ -42,6 +42,51 @@ func ruleV5(r *Run) {
 		})
 		return found
 	}
+	// V5e: a Read that delivered bytes is a success whatever error came with it (io.Reader allows
+	// n > 0 together with io.EOF): the error of Read is recorded only where n > 0 is excluded
+	if lm, _ := p.DeclOf("io", "Decoder.loadMore"); lm != nil {
+		lparents := parentMap(lm.Body)
+		var nObj, errObj types.Object
+		ast.Inspect(lm.Body, func(n ast.Node) bool {
+			if as, ok := n.(*ast.AssignStmt); ok && len(as.Lhs) == 2 && len(as.Rhs) == 1 {
+				if c, ok := ast.Unparen(as.Rhs[0]).(*ast.CallExpr); ok && methodName(c) == "Read" {
+					nObj, errObj = identObj(info, as.Lhs[0]), identObj(info, as.Lhs[1])
+				}
+			}
+			return true
+		})
+		errF := p.LookupField("io", "Decoder", "Error")
+		found := false
+		ast.Inspect(lm.Body, func(n ast.Node) bool {
+			as, ok := n.(*ast.AssignStmt)
+			if !ok || len(as.Lhs) != 1 || len(as.Rhs) != 1 || fieldOf(info, as.Lhs[0]) != errF || errF == nil || identObj(info, as.Rhs[0]) != errObj || errObj == nil {
+				return true
+			}
+			found = true
+			noBytes := false
+			for _, fc := range factsWithSwitch(lparents, as) {
+				be, ok := fc.e.(*ast.BinaryExpr)
+				if !ok || identObj(info, be.X) != nObj {
+					continue
+				}
+				k, ok := intConst(info, be.Y)
+				if !ok || k != 0 {
+					continue
+				}
+				switch {
+				case fc.neg && be.Op == token.GTR, !fc.neg && be.Op == token.EQL, !fc.neg && be.Op == token.LEQ:
+					noBytes = true
+				}
+			}
+			r.Check(noBytes, "read error recorded only when no bytes came with it (Decoder.loadMore)", as.Pos(), "Error = err under n == 0", "loadMore records the error of Read although the same call delivered bytes: a reader that returns its last fragment together with io.EOF (allowed by io.Reader) puts the decoder in the error state while all values still decode, so the streaming decode reports EOF where the in-memory decode of the same bytes reports nothing, and a later genuine error is masked")
+			return true
+		})
+		if !found {
+			r.Undec("read error handling (Decoder.loadMore)", lm.Pos(), "no `dec.Error = err` of the Read result found")
+		}
+	} else {
+		r.Undec("Decoder.loadMore", 0, "not found")
+	}
 	for _, file := range pkg.Syntax {
 		for _, d := range file.Decls {
 			fd, ok := d.(*ast.FuncDecl)
